@@ -78,7 +78,9 @@ def check_property(prop, tier, seed):
     functions = {}
     covered = set()
     native_total = 0
+    bounded = set()
     for r in results:
+        bounded |= set(r.get("bounded_clauses", []))
         trusted |= set(r["trusted"])
         solver_s += r["solver_s"]
         covered |= set(r.get("covered", []))
@@ -145,6 +147,7 @@ def check_property(prop, tier, seed):
             "known_findings": [f["id"] for f, _ in known_hits],
             "violations_reported": [v["obligation"] for v in violations][:50],
             "native_differential_trials": native_total,
+            "bounded_standin_clauses_not_counted_as_proved": sorted(bounded)[:60],
             "source_lines_executed_symbolically": len(covered),
             "samples": samples or [{"note": "no discharged postcondition on this run"}],
             "clauses_not_decided": spec.get("not_decided", []),
